@@ -40,11 +40,12 @@ func (o *Outcome) fail(rule, format string, a ...any) {
 }
 
 type Options struct {
-	RecordTrace bool
-	MaxSteps    int
-	BagNetwork  bool // the spec's unordered bag instead of per-link FIFO
-	Small       bool // at most 3 servers and 2 clients (C02: TLC evaluates every step)
-	Quick       bool // with Small: 2-3 servers, 2 clients, buffer 2 (C02 quick tier: few TLC starts)
+	RecordTrace  bool
+	MaxSteps     int
+	NoFinalReads bool // skip the final-read phase (faults stop, one Get per key)
+	BagNetwork   bool // the spec's unordered bag instead of per-link FIFO
+	Small        bool // at most 3 servers and 2 clients (C02: TLC evaluates every step)
+	Quick        bool // with Small: 2-3 servers, 2 clients, buffer 2 (C02 quick tier: few TLC starts)
 }
 
 func S(s string) tla.Value { return tla.MakeString(s) }
@@ -118,7 +119,18 @@ func Run(w *sim.World, opt Options) *Outcome {
 	// adaptive workload: after a leader change following an acknowledged Put, the next
 	// request is usually a Get of that key (a lost acknowledged write becomes visible)
 	ackedPutKey, electionsAtAck := "", 0
+	// final reads: once the adversaries have finished (or the step budget is used up) every
+	// fault stops, pending requests complete, and one Get per key is issued: an acknowledged
+	// write that was lost shows in the history even if no client happened to ask again
+	final, finalReading := false, false
+	finalQ := map[int][]tla.Value{}
 	r.NextReq = func(k int) (tla.Value, bool) {
+		if final {
+			if q := finalQ[k]; len(q) > 0 {
+				return q[0], true // taken off the queue when the request step commits
+			}
+			return tla.Value{}, false
+		}
 		if issued[k] >= nOps {
 			return tla.Value{}, false
 		}
@@ -326,6 +338,10 @@ func Run(w *sim.World, opt Options) *Outcome {
 				}
 				issued[cl]++
 				pending[cl] = op
+				if final && len(finalQ[cl]) > 0 {
+					finalQ[cl] = finalQ[cl][1:]
+					out.Probes["final_read_issued"]++
+				}
 			case "AClient.sndReq":
 				if pending[cl] != nil && pcOf(a) == "rcvResp" {
 					pending[cl].Sends++
@@ -364,6 +380,28 @@ func Run(w *sim.World, opt Options) *Outcome {
 		max = 400 + 250*n*c
 	}
 	crashed := map[int]bool{}
+	finalOld := 0 // leader being deposed before the final reads (0 = none, or done)
+	// calm timers: with a leader among the live servers election timers hardly fire; without
+	// one the lowest live server's does (a leaderless cluster needs a time-out to recover)
+	calmTimeout := func(sv int) float64 {
+		leader, lowest := false, 0
+		for i := n; i >= 1; i-- {
+			if crashed[i-1] || i == finalOld {
+				continue
+			}
+			if r.G("state", i).AsString() == "leader" {
+				leader = true
+			}
+			lowest = i
+		}
+		if leader {
+			return 0.999
+		}
+		if sv == lowest {
+			return 0.5
+		}
+		return 0.999
+	}
 	weight := make([]int, n+1)
 	phaseLen := []int{50, 150, 400, 100000}[w.Choose(sim.KCfg, 4)]
 	slowRepl := w.Choose(sim.KCfg, 3) == 1
@@ -496,7 +534,69 @@ func Run(w *sim.World, opt Options) *Outcome {
 		max += 1500
 		out.Probes["depose_mode"]++
 	}
-	for out.Steps = 0; out.Steps < max; out.Steps++ {
+	// calm mode (half of the runs without flapping or hunting): timers behave as in a healthy
+	// deployment (election and client time-outs are rare unless there is no leader), so that
+	// requests complete in a few dozen steps, histories hold many acknowledged operations and
+	// hardly any request is re-sent; leader changes come from the depose adversary, crashes
+	// and the final phase instead of from constant time-out noise
+	var baseTimeoutP0 func(int) float64
+	if !flap && !hunt && w.Choose(sim.KCfg, 2) == 1 {
+		baseTimeoutP0 = calmTimeout
+		r.TimeoutP0 = calmTimeout
+		r.CoinP0 = 0.99
+		max *= 3
+		out.Probes["calm_mode"]++
+	}
+	startFinalReads := func() {
+		finalOld = 0
+		r.Isolated = nil
+		for i, key := range keys {
+			cl := 1 + i%c
+			finalQ[cl] = append(finalQ[cl], tla.MakeRecord([]tla.RecordField{{Key: S("type"), Value: S("get")}, {Key: S("key"), Value: S(key)}}))
+		}
+		finalReading = true
+	}
+	enterFinal := func() {
+		final = true
+		hunt, patient, flap, deposing = false, false, false, false
+		hs, fav, iso, suppressAE = -1, 0, 0, 0
+		// faults stop: nobody is cut off any more and timers fire rarely (spurious election and
+		// client time-outs are the remaining "fault"; a leaderless cluster still needs one)
+		r.Isolated = nil
+		r.CoinP0 = 0.97
+		r.TimeoutP0 = calmTimeout
+		phaseLen = 1 << 30
+		for i := range weight {
+			weight[i] = 20
+		}
+		max = out.Steps + 3000 + 500*n
+		out.Probes["final_read_phase"]++
+		// in half of the runs with 3+ servers the final reads are served by ANOTHER leader: the
+		// present one is cut off until somebody else leads a later term, then everybody is
+		// reachable again (what a replica missed applying, or a leader wrongly committed,
+		// becomes visible to clients)
+		finalOld = 0
+		if n >= 3 && w.Choose(sim.KFault, 2) == 1 {
+			max += 3000
+			return // the loop below waits for a leader, cuts it off, waits for its successor
+		}
+		startFinalReads()
+	}
+	finalDone := func() bool {
+		for k := 1; k <= c; k++ {
+			if !finalReading || len(finalQ[k]) > 0 || pending[k] != nil {
+				return false
+			}
+		}
+		return true
+	}
+	for out.Steps = 0; ; out.Steps++ {
+		if out.Steps >= max {
+			if final || opt.NoFinalReads {
+				break
+			}
+			enterFinal()
+		}
 		if hunt && hs >= 0 && hs < 3 {
 			huntStep()
 		}
@@ -530,7 +630,7 @@ func Run(w *sim.World, opt Options) *Outcome {
 				}
 			case deposing && (elections > electionsAtAck || out.Steps-ackStep > 2500):
 				deposing, ackStep = false, -1
-				r.Isolated, r.TimeoutP0 = nil, nil
+				r.Isolated, r.TimeoutP0 = nil, baseTimeoutP0
 			case ackedPutKey == "":
 				ackStep = -1
 			}
@@ -601,6 +701,8 @@ func Run(w *sim.World, opt Options) *Outcome {
 				if suppressAE == sv && a == r.Servers[sv-1][2] {
 					ws[i] = 0 // the hunted second leader does not get to replicate its entry
 				}
+			} else if final && finalReading {
+				ws[i] = 60 // the final reads are what is left to do
 			} else if hunt && hs >= 2 {
 				ws[i] = 0 // clients are slow while the old leader is back: no entry of its new term yet
 			} else if patient && (deposing || (ackedPutKey != "" && elections == electionsAtAck && deposed < 2)) {
@@ -644,11 +746,42 @@ func Run(w *sim.World, opt Options) *Outcome {
 				done = false
 			}
 		}
-		if done && !(hunt && hs >= 1) {
-			break
+		if final && !finalReading {
+			if finalOld == 0 {
+				for i := 1; i <= n; i++ {
+					if !crashed[i-1] && r.G("state", i).AsString() == "leader" {
+						finalOld = i
+					}
+				}
+				if finalOld != 0 {
+					r.Isolated = map[int]bool{finalOld: true}
+					out.Probes["final_leader_deposed"]++
+				}
+				continue
+			}
+			// deposing: another live server leads a later term than the old leader's
+			for i := 1; i <= n; i++ {
+				if i != finalOld && !crashed[i-1] && r.G("state", i).AsString() == "leader" && r.G("currentTerm", i).AsNumber() > r.G("currentTerm", finalOld).AsNumber() {
+					out.Probes["final_reads_from_new_leader"]++
+					max = out.Steps + 3000 + 500*n
+					startFinalReads()
+					break
+				}
+			}
+			continue
 		}
-		if hunt && hs == 3 && out.Steps-hSince > 600 {
-			break
+		if final {
+			if finalDone() {
+				out.Probes["final_reads_answered"]++
+				break
+			}
+			continue
+		}
+		if (done && !(hunt && hs >= 1)) || (hunt && hs == 3 && out.Steps-hSince > 600) {
+			if opt.NoFinalReads {
+				break
+			}
+			enterFinal()
 		}
 	}
 	for _, op := range pending {
